@@ -59,7 +59,7 @@ def run(ctx):
         if k not in seen:
             seen.add(k); uniq.append(v)
     cov = {"evaluations": len(res), "distinct_nontrivial": nontriv,
-           "rule": "operation {get, touch, set, put, ensure, get_or_update Replace} x front-end {plain, sharded, stacked over plain+sharded readers} x pre-state {empty, directories missing, key present, over capacity with maintenance firing, secondary hit}: every call on a shared path of the fault-free execution is made to return, one at a time, what a concurrent unlink / publish / mkdir by another participant causes (ENOENT on open/stat/unlink/rename/opendir/create, EEXIST on link/mkdir): the operation must not return an error or panic, the following lookup neither; results, snapshots and traces compared with the model under the same injection. Non-trivial = every case (each is one lost race). In addition the real interleavings of the concurrent families (gate mode, every single context-switch point) must end every operation without error.",
+           "rule": "operation {get, touch, set, put, ensure, get_or_update Replace} x front-end {plain, sharded, stacked over plain+sharded readers} x pre-state {empty, directories missing, key present, over capacity with maintenance firing, secondary hit}: every call on a shared path of the fault-free execution is made to return, one at a time, what a concurrent unlink / publish / mkdir by another participant causes (ENOENT on open/stat/unlink/rename/opendir/create, EEXIST on link/mkdir, ESTALE on futimens of a file removed after it was opened; the over-capacity pre-state makes maintenance evict several entries and re-stamp several): the operation must not return an error or panic, the following lookup neither; results, snapshots and traces compared with the model under the same injection. Non-trivial = every case (each is one lost race). In addition the real interleavings of the concurrent families (gate mode, every single context-switch point) must end every operation without error.",
            "samples": samples, "traces_validated_against_impl": agree + sched_agree, "fault_free_executions": nb, "real_schedules_explored": len(sched_runs)}
     if not ctx.quick():
         rc, o = C.coqchk(PROPS)
